@@ -1,6 +1,6 @@
 (* C29 — cover completeness for target thumb: reflection of the closure check on the regenerated table *)
 From Coq Require Import String List.
-From PV Require Import Spec.BurgCoverSpec Spec.IRTrees Spec.C29Known Model.BurgCover Proofs.C29_cover Gen.Tab_burg_thumb.
+From PV Require Import Spec.BurgCoverSpec Spec.IRTrees Spec.C29Known Model.BurgCover Model.C29Synth Proofs.C29_cover Gen.Tab_burg_thumb.
 Import ListNotations.
 Local Open Scope string_scope.
 
@@ -10,3 +10,7 @@ Proof. vm_compute. reflexivity. Qed.
 Theorem cover_complete_thumb : forall t,
   in_lang (irtrees desc_thumb excl_thumb) "S" t -> covers (usable assume_thumb rules_thumb) t "stm".
 Proof. exact (closure_ok_complete _ _ _ _ closure_thumb). Qed.
+
+(* the synthesized rules (UND<ty>, CALL, ASM) produce registers of the class the target maps the type to *)
+Lemma synth_classes_thumb : synth_bad desc_thumb clsnt_thumb synth_thumb = [] /\ synth_complete desc_thumb synth_thumb = true.
+Proof. split; vm_compute; reflexivity. Qed.
